@@ -25,6 +25,7 @@ func runC02(p *Prog, r *Report) {
 	// R5: nonce lock-step is a clause of this property too (replayed / reordered / duplicated chunks fail to open)
 	c01R2as(p, r, "C02-R5")
 	c02R6(p, r)
+	erasedErrorRequests(p, r, "C02-R7")
 }
 
 // c02R6: a chunk that failed to open leaves nothing to hand out.
@@ -890,6 +891,8 @@ func c02R4(p *Prog, r *Report) {
 			}
 		}
 		nAssign := 0
+		vals := map[string]ast.Expr{} // request field -> value given by the handler (literal or field by field)
+		var reqPos token.Pos
 		for _, v := range lc.G.V {
 			as, ok := v.Node.(*ast.AssignStmt)
 			if !ok {
@@ -897,6 +900,11 @@ func c02R4(p *Prog, r *Report) {
 			}
 			for i, l := range as.Lhs {
 				lo := objOf(info, l)
+				fieldName := ""
+				if sel, isSel := ast.Unparen(l).(*ast.SelectorExpr); isSel && objOf(info, sel.X) == reqObj && reqObj != nil {
+					lo = reqObj
+					fieldName = sel.Sel.Name
+				}
 				if lo != reqObj && lo != errObj {
 					continue
 				}
@@ -904,36 +912,44 @@ func c02R4(p *Prog, r *Report) {
 				g := lc.G.EdgeDominates(errNonNil, v.ID) && lc.G.EdgeDominates(nPos, v.ID) && lc.G.EdgeDominates(valid, v.ID)
 				r.Check(g, rule, "ss2022.(*StreamServer).HandleStream$defer:assigns-"+lo.Name(), p.posStr(as.Pos()), "only under err != nil && n > 0 && fallback address valid", "the deferred handler rewrites the result outside err != nil && n > 0 && unsafeFallbackAddr.IsValid(): a successful request is replaced, or fallback happens with nothing received / configured")
 				if lo == reqObj && len(as.Rhs) == len(as.Lhs) {
-					// Payload: readBuf[:n], Addr: s.unsafeFallbackAddr
-					cl, ok := ast.Unparen(as.Rhs[i]).(*ast.CompositeLit)
-					payloadOK, addrOK := false, false
-					if ok {
+					if reqPos == token.NoPos {
+						reqPos = as.Pos()
+					}
+					if fieldName != "" {
+						vals[fieldName] = as.Rhs[i]
+						continue
+					}
+					if cl, ok := ast.Unparen(as.Rhs[i]).(*ast.CompositeLit); ok {
 						for _, el := range cl.Elts {
-							kv, ok := el.(*ast.KeyValueExpr)
-							if !ok {
-								continue
-							}
-							k := kv.Key.(*ast.Ident).Name
-							if k == "Payload" {
-								if sl, ok := ast.Unparen(kv.Value).(*ast.SliceExpr); ok && sl.Low == nil && objOf(info, sl.High) == nObj {
-									// base is the first read's buffer
-									for _, cs := range hs.AllCalls() {
-										if len(cs.Call.Args) == 2 && isTransport(hs, cs.Call.Args[0]) && objOf(info, cs.Call.Args[1]) == objOf(info, sl.X) && cs.ResultVar(0) == nObj {
-											payloadOK = true
-										}
-									}
-								}
-							}
-							if k == "Addr" {
-								if fs, ok := ast.Unparen(kv.Value).(*ast.SelectorExpr); ok && fs.Sel.Name == "unsafeFallbackAddr" {
-									addrOK = true
+							if kv, ok := el.(*ast.KeyValueExpr); ok {
+								if k, isId := kv.Key.(*ast.Ident); isId {
+									vals[k.Name] = kv.Value
 								}
 							}
 						}
 					}
-					r.Check(payloadOK && addrOK, rule, "ss2022.(*StreamServer).HandleStream$defer:fallback-request", p.posStr(as.Pos()), "the fallback request carries readBuf[:n] of the first read and the configured fallback address", "the fallback request does not carry exactly the received bytes / the configured address")
 				}
 			}
+		}
+		if reqPos != token.NoPos {
+			// Payload: readBuf[:n], Addr: s.unsafeFallbackAddr
+			payloadOK, addrOK := false, false
+			if pv, ok := vals["Payload"]; ok {
+				if sl, ok := ast.Unparen(lc.Resolve(pv)).(*ast.SliceExpr); ok && sl.Low == nil && objOf(info, sl.High) == nObj {
+					// base is the first read's buffer
+					for _, cs := range hs.AllCalls() {
+						if len(cs.Call.Args) == 2 && isTransport(hs, cs.Call.Args[0]) && objOf(info, cs.Call.Args[1]) == objOf(info, sl.X) && cs.ResultVar(0) == nObj {
+							payloadOK = true
+						}
+					}
+				}
+			}
+			if av, ok := vals["Addr"]; ok {
+				if fs, ok := ast.Unparen(lc.Resolve(av)).(*ast.SelectorExpr); ok && fs.Sel.Name == "unsafeFallbackAddr" {
+					addrOK = true
+				}
+			}
+			r.Check(payloadOK && addrOK, rule, "ss2022.(*StreamServer).HandleStream$defer:fallback-request", p.posStr(reqPos), "the fallback request carries readBuf[:n] of the first read and the configured fallback address", "the fallback request does not carry exactly the received bytes / the configured address")
 		}
 		r.Check(nAssign >= 2, rule, "ss2022.(*StreamServer).HandleStream$defer:has-fallback", p.posStr(lit.Pos()), "fallback handler present", "no fallback handler found")
 	}
